@@ -13,6 +13,7 @@ import (
 	"flag"
 	"fmt"
 	"google.golang.org/protobuf/encoding/protowire"
+	"sort"
 
 	"github.com/canopy-network/canopy/fsm"
 	"github.com/canopy-network/canopy/lib"
@@ -142,6 +143,7 @@ func main() {
 			signerIdx := sim.AllSigners(vs)
 			bitmapExtra := []int{} // committee indices set in the bitmap WITHOUT a signature
 			padBits := false
+			padExact := 0
 			wrongLen := false
 			attachBlock, attachResults := true, true
 			swapResults := false
@@ -217,6 +219,33 @@ func main() {
 					kind = "unsigned-bits"
 				case 4:
 					padBits = true
+					if avail := (8 - nMembers%8) % 8; avail > 0 && r.Chance(40) {
+						// the weakest k members sign and EXACTLY nMembers-k unused bits of the last bitmap byte are set: the number of set
+						// bits equals the committee size although the signers hold a minority (a decision taken on the bit count instead
+						// of the signers' power would take this for "everyone signed")
+						order := make([]int, nMembers)
+						for i := range order {
+							order[i] = i
+						}
+						sort.SliceStable(order, func(a, b int) bool {
+							return vs.ValidatorSet.ValidatorSet[order[a]].VotingPower < vs.ValidatorSet.ValidatorSet[order[b]].VotingPower
+						})
+						k := nMembers - avail
+						if k < 1 {
+							k = 1
+						}
+						var pw uint64
+						for _, i := range order[:k] {
+							pw += vs.ValidatorSet.ValidatorSet[i].VotingPower
+						}
+						if pw < vs.MinimumMaj23 {
+							signerIdx = append([]int{}, order[:k]...)
+							sort.Ints(signerIdx)
+							padExact = nMembers - k
+							kind = "padding-count-equals-committee"
+							break
+						}
+					}
 					if r.Bool() {
 						full := sim.SignersForPower(vs, vs.MinimumMaj23)
 						signerIdx = full[:len(full)-1]
@@ -394,7 +423,11 @@ func main() {
 			for _, i := range bitmapExtra {
 				bm[i/8] |= 1 << uint(i%8)
 			}
-			if padBits && nMembers%8 != 0 {
+			if padExact > 0 {
+				for i := nMembers; i < nMembers+padExact && i < len(bm)*8; i++ {
+					bm[i/8] |= 1 << uint(i%8)
+				}
+			} else if padBits && nMembers%8 != 0 {
 				for i := nMembers; i < len(bm)*8; i++ {
 					if r.Bool() {
 						bm[i/8] |= 1 << uint(i%8)
